@@ -223,6 +223,8 @@ def rule_panics(ctx):
                     what = 'expect'
                 elif 'panicking::' in nm or nm.endswith('::unreachable') or 'unwrap_failed' in nm:
                     what = 'panic'
+                    if any('debug_assert' in str(m_) for m_ in (t.get('macros') or [])):
+                        what = None     # debug_assert!/debug_assert_eq!: compiled out of release builds, like overflow checks
             if what is None:
                 continue
             n += 1
